@@ -1,5 +1,6 @@
 """C01 - relaxation generators preserve trace and Hermiticity."""
 import ast
+import math
 from qvh.core import *
 from qvh import extract as X
 
@@ -321,7 +322,7 @@ def lindblad_builder_stream(ck, qr, numpy):
 
 
 def api_stream(ck, qr, numpy):
-    from quantarhei import Molecule, Aggregate, TimeAxis, CorrelationFunction, energy_units, eigenbasis_of
+    from quantarhei import Molecule, Aggregate, TimeAxis, CorrelationFunction, energy_units, eigenbasis_of, Hamiltonian
     rng = ck.rng
     cases = [("standard_Redfield", dict()), ("standard_Redfield", dict(secular_relaxation=True)),
              ("standard_Redfield", dict(time_dependent=True)), ("standard_Redfield", dict(time_dependent=True, secular_relaxation=True)),
@@ -351,6 +352,66 @@ def api_stream(ck, qr, numpy):
                 for j in range(i + 1, nmol):
                     agg.set_resonance_coupling(i, j, rng.choice([10.0, 20.0, 80.0, 150.0, -120.0]))
         agg.build()
+        # ---- the same theories on a Hamiltonian with COMPLEX resonance couplings (phases), built directly from the tensor classes the way
+        # the builder does it ------------------------------------------------------------------------------------------------
+        try:
+            from quantarhei.qm import RedfieldRelaxationTensor, FoersterRelaxationTensor
+            from quantarhei.qm.liouvillespace.tdfoerstertensor import TDFoersterRelaxationTensor
+            sbi_c = agg.get_SystemBathInteraction()
+            Hc = numpy.array(agg.get_Hamiltonian().data, dtype=complex)
+            for i in range(1, Hc.shape[0]):
+                for j in range(i + 1, Hc.shape[0]):
+                    ph = rng.choice([0.3, 0.7, 1.1])
+                    Hc[i, j] = Hc[i, j] * complex(math.cos(ph), math.sin(ph)); Hc[j, i] = numpy.conj(Hc[i, j])
+            for cname, mk in (("standard_Foerster", lambda h_: FoersterRelaxationTensor(h_, sbi_c)),
+                              ("standard_Foerster:pure_dephasing", lambda h_: FoersterRelaxationTensor(h_, sbi_c, pure_dephasing=True)),
+                              ("standard_Foerster:time_dependent", lambda h_: TDFoersterRelaxationTensor(h_, sbi_c)),
+                              ("standard_Redfield", None)):
+                inpc = {"sites": nmol, "theory": cname, "hamiltonian": "complex Hermitian (couplings with phases)", "T": T}
+                try:
+                    hc_obj = Hamiltonian(data=Hc.copy())
+                    if mk is None:
+                        hc_obj.protect_basis()
+                        try:
+                            with eigenbasis_of(hc_obj):
+                                RTc = RedfieldRelaxationTensor(hc_obj, sbi_c)
+                        finally:
+                            hc_obj.unprotect_basis()
+                    else:
+                        RTc = mk(hc_obj)
+                    dcx = numpy.array(RTc.data)
+                    if dcx.ndim == 5:
+                        dcx = dcx[[0, 1, dcx.shape[0] // 2, dcx.shape[0] - 1]]
+                    identities(numpy, dcx, "%s tensor for a complex Hermitian Hamiltonian" % cname, ck, inpc, "complex-hamiltonian:" + cname)
+                    with eigenbasis_of(hc_obj):
+                        dce = numpy.array(RTc.data)
+                    if dce.ndim == 5:
+                        dce = dce[[0, dce.shape[0] - 1]]
+                    identities(numpy, dce, "%s tensor for a complex Hermitian Hamiltonian, its eigenbasis" % cname, ck, inpc, "complex-hamiltonian:eigenbasis:" + cname)
+                    ck.case(("api-complex", s, cname), nontrivial=True, kind="api", theory=cname.split(":")[0])
+                except Exception as e:
+                    ck.fail("raises:complex-hamiltonian:%s" % cname, "construction for a complex Hermitian Hamiltonian raised %r" % (e,), inpc)
+        except Exception as e:
+            ck.fail("raises:complex-hamiltonian:setup", "raised %r" % (e,), {"sites": nmol})
+        # ---- a secular tensor requested with recalculate=False after the full tensor of the same theory was built: still secular -------
+        try:
+            agg.get_RelaxationTensor(ta, relaxation_theory="standard_Redfield")
+            RTs, hs_ = agg.get_RelaxationTensor(ta, relaxation_theory="standard_Redfield", secular_relaxation=True, recalculate=False)
+            with eigenbasis_of(hs_):
+                dsx = numpy.array(RTs.data)
+            n_ = dsx.shape[0]; scs = max(1e-300, float(numpy.abs(dsx).max())); worst = 0.0
+            for a in range(n_):
+                for b in range(n_):
+                    for c in range(n_):
+                        for d in range(n_):
+                            if not ((a == b and c == d) or (a == c and b == d)):
+                                worst = max(worst, abs(dsx[a, b, c, d]))
+            ck.case(("api-secular-norecalc", s), nontrivial=True, kind="api", theory="standard_Redfield")
+            if worst > 1e-9 * scs:
+                ck.fail("secular:recalculate-false", "a tensor requested with secular_relaxation=True, recalculate=False after the full tensor was built has "
+                        "non-secular elements in the eigenbasis", {"sites": nmol, "T": T}, float(worst / scs))
+        except Exception as e:
+            ck.fail("raises:secular:recalculate-false", "raised %r" % (e,), {"sites": nmol})
         # quick: the Foerster, combined, cut-off and non-equilibrium cases in every run, five of the others at random
         for theory, opts in (cases if not ck.quick else rng.sample(cases[:5] + [cases[6]] + cases[8:10], 5) + [cases[5], cases[7], cases[10], cases[11 + s % 2]]):
             inp = {"sites": nmol, "theory": theory, "options": {k: v for k, v in opts.items()}, "T": T}
@@ -425,6 +486,23 @@ def api_stream(ck, qr, numpy):
                     ck.case(("api-sec-5", s, tag), nontrivial=float(numpy.abs(before5).max()) > 0, kind="secularize-all-times", theory=theory)
                 except Exception as e:
                     ck.fail("raises:secular:all-times:%s" % tag, "secularize() of a time-dependent tensor raised %r" % (e,), inp)
+            if not opts.get("secular_relaxation") and d_site.ndim in (4, 5) and not getattr(RT, "as_operators", False):
+                # the reversible secularisation of the newer interface (rates are extracted, the tensor itself is left as it is so that
+                # the step can be undone): both identities still hold for the tensor and nothing in it has changed
+                try:
+                    from quantarhei.qm.liouvillespace.secular import Secular
+                    if isinstance(RT, Secular) and not RT.is_secular:
+                        before_r = numpy.array(RT.data).copy()
+                        Secular.secularize(RT, reversible=True, use_data=False)
+                        after_r = numpy.array(RT.data).copy()
+                        RT.recover_nonsecular()
+                        identities(numpy, after_r, "tensor after a reversible secularisation", ck, inp, "secular-identities:reversible:" + tag)
+                        if numpy.abs(after_r - before_r).max() != 0.0:
+                            ck.fail("secular:reversible:" + tag, "a reversible secularisation (use_data=False) changed the tensor's elements", inp,
+                                    float(numpy.abs(after_r - before_r).max() / max(1e-300, numpy.abs(before_r).max())))
+                        ck.case(("api-sec-rev", s, tag), nontrivial=True, kind="secularize-reversible", theory=theory)
+                except Exception as e:
+                    ck.fail("raises:secular:reversible:%s" % tag, "reversible secularisation raised %r" % (e,), inp)
             if not opts.get("secular_relaxation") and d_site.ndim == 4 and s % 2 == 1:
                 # the newer interface (secularize(legacy=False) -> Secular.secularize on the data) and its second call
                 try:
